@@ -1,5 +1,6 @@
 import python_minifier.ast_compat as ast
 
+from python_minifier.ast_annotation import get_parent
 from python_minifier.rename.binding import NameBinding
 from python_minifier.rename.name_generator import name_filter
 from python_minifier.rename.util import is_namespace
@@ -58,6 +59,11 @@ def reservation_scope(namespace, binding):
     namespaces = {namespace}
 
     for node in binding.references:
+        if isinstance(node, ast.Name) and isinstance(get_parent(node), ast.NamedExpr) and get_parent(node).target is node:
+            # The target of an assignment expression in a comprehension is bound in the namespace enclosing the comprehension,
+            # but it must not share a name with the iteration variables of the comprehensions it is written in.
+            node = get_parent(node)
+
         while node is not namespace:
             namespaces.add(node.namespace)
             node = node.namespace
